@@ -296,14 +296,14 @@ def run(ctx):
         ty, shape = t
         hcmd = [exe, ty]
         dcmd = [sys.executable, feed, RNG_OPS, exe, ty, "--", drv, *shape]
-        return core.correspond(ctx, f"K-C03[{ty}]", cases, hcmd, dcmd, dsgen.classify, env=dsgen.ASAN_ENV)
+        return core.correspond(ctx, f"K-C03[{ty}]", cases, hcmd, dcmd, dsgen.classify, env=dsgen.ASAN_ENV, timeout=900 if ctx.quick else 3600)
     dsgen.run_types(one, dsgen.types(TYPES, 'VERIF_C03_TYPES'))
 
     def onew(t):
         ty, shape = t
         hcmd = [exew, ty]
         dcmd = [sys.executable, feed, RNG_OPS, exew, ty, "--", drv, *shape]
-        return core.correspond(ctx, f"K-C03[{ty}]", wcases, hcmd, dcmd, classify_w, env=dsgen.ASAN_ENV)
+        return core.correspond(ctx, f"K-C03[{ty}]", wcases, hcmd, dcmd, classify_w, env=dsgen.ASAN_ENV, timeout=900 if ctx.quick else 3600)
     dsgen.run_types(onew, dsgen.types(TYPES_W, 'VERIF_C03_TYPES'))
     ctx.cov["evaluations"] += len(wcases) * len(TYPES_W)
 
